@@ -5,6 +5,7 @@
 #define VERIF_BUSWORLD_H_
 
 #include <deque>
+#include <functional>
 #include <map>
 #include <string>
 #include <vector>
@@ -40,6 +41,7 @@ struct ReqSpec {
   int restarts = 0;    // notify() asks for a restart this many times
   int resubmits = 0;   // waiter re-submits after an error result this many times (sendAndWait emulation)
   bool late = false;   // not enqueued at start: offered as ENQUEUE alternative at every read
+  bool external = false;  // submitted by a client thread of the harness (schedmc), not by the world
   Script responder;    // behaviour of the addressed participant after ebusd won arbitration
 };
 struct AnswerSpec {
@@ -69,6 +71,9 @@ struct Scenario {
   Bytes alphabet = {0x00, 0x01, 0xFF, 0xA9, 0xAA, 0x10, 0xFE, 0x55};
   Bytes contenders = {0x00, 0x01, 0x11, 0x30, 0x21};  // wire value seen at the arbitration slot
   Script winnerTelegram;       // what a winning contender continues with (without its QQ)
+  int loseArbitrations = 0;    // scripted: ebusd loses this many arbitrations to scriptedContender
+  uint8_t scriptedContender = 0x10;
+  int silenceAtRead = 0;       // scripted: two long silences (signal loss) at this read call
 };
 
 // ---------------------------------------------------------------------------------------------
@@ -179,12 +184,22 @@ class World {
   std::vector<int> reqState;       // 0 not submitted, 1 submitted (in flight), 2 completed
   std::vector<int> resubmitsLeft;
   std::vector<int> lastResult;
+  std::vector<char> collected;     // waited request was taken out of the finished queue by its waiter
   Script winnerScript;
 
   World(const Scenario& s, vp::Explorer& e) : sc(s), ex(e), listener(this) { gapLeft = s.preSyns; }
 
   // ---- life cycle ----
-  void run();               // one execution of the real handler loop in this world
+  void run();               // one execution of the real handler loop in this world (setup + h->run() + teardown)
+  void setup();
+  void teardown();
+  int reqIndexOf(BusRequest* r);
+  void chooseResponder(uint8_t zz);
+  bool pickResponder = false;  // ebusd won an arbitration; the next symbol it writes selects the responder script
+  uint8_t wonAddr = 0;
+  std::function<void()> readHook;   // schedmc: scheduling point at every transport read
+  bool externalBusy = false;        // schedmc: client threads still have work
+  int arbLost = 0, silencesDone = 0;
   void enqueue(int idx);
   void note(const std::string& s) { if (logging) log.push_back(s); }
 
@@ -217,7 +232,7 @@ class World {
   void deliverRaw(uint8_t b);
   void housekeeping();
   bool allDone();
-  void endRun();
+  void endRun(bool natural = true);
 };
 
 }  // namespace bw
